@@ -1,11 +1,12 @@
 import CMacVerif.Model.Verner
 import CMacVerif.Model.Recomb
 import CMacVerif.Model.Locate
+import CMacVerif.Model.Planck
 import CMacVerif.Inst.Float
 import CMacVerif.Util.Bits
 /-! Line-protocol driver for C18: the `Float` instantiation of the models (core Lean only).
 One answer line per op line; ` #tag` = branch taken (stripped before comparison). -/
-open CMacVerif CMacVerif.Util CMacVerif.Verner CMacVerif.Gen.Verner CMacVerif.Locate
+open CMacVerif CMacVerif.Util CMacVerif.Verner CMacVerif.Gen.Verner CMacVerif.Locate CMacVerif.Planck
 
 structure St where
   tabs : Array (String × Array Float) := #[]
@@ -63,7 +64,7 @@ def step (s : St) : List String → St × String
   | ["xs", ion, e] =>
     match ionOf ion with
     | some i =>
-      let tags := (ionShells i).map fun sh => (xsBranch sh.1 sh.2.1 sh.2.2 (fl e)).tag
+      let tags := (ionShellsSpec i).map fun sh => (xsBranch sh.1 sh.2.1 sh.2.2 (fl e)).tag
       (s, s!"xs {showF (crossSection i (fl e))} #{"+".intercalate tags}")
     | none => (s, "xs unknown-ion")
   | ["recv", z, n, t] =>
@@ -94,6 +95,20 @@ def step (s : St) : List String → St × String
     let a := (rest.map fl).toArray
     if a.size != nat! n ∨ a.size < 2 then (s, "loc bad-length") else
     (s, s!"loc {locate (fl x) (fn a) a.size} #loc-{locTag (fl x) a a.size}")
+  | ["mk", "planck", t] =>
+    -- the tables are CONSTRUCTED by the model of the constructor (compared with the real ones by `gettab`)
+    let N := planckNumFreq
+    let T := fl t
+    let s := { s with tabs := s.tabs.filter (fun x => !(x.1.startsWith "planck.")) }
+    -- pCdfFast / pLogCdfFast over pCumArr = pCdf / pLogCdf (Lemmas/Planck.lean, proved for every arithmetic)
+    let cum := pCumArr Nat.toFloat planck boltzmann T N (N - 1)
+    let cdf := Array.ofFn (n := N) fun i => pCdfFast cum N i.val
+    let lcdf := Array.ofFn (n := N) fun i => pLogCdfFast cum N i.val
+    let lf := Array.ofFn (n := N) fun i => pLogFreq (α := Float) Nat.toFloat N i.val
+    (((s.setTab "planck.cdf" cdf).setTab "planck.logcdf" lcdf).setTab "planck.logfreq" lf, "mk planck")
+  | ["gettab", name] =>
+    let a := s.tab name
+    (s, s!"gettab {a.size} {showFs a.toList}")
   | "mk" :: kind :: _ => ({ s with tabs := s.tabs.filter (fun t => !(t.1.startsWith (kind ++ "."))),
                                     grids := s.grids.filter (fun t => !(t.1.startsWith (kind ++ "."))) }, s!"mk {kind}")
   | "tab" :: name :: n :: rest =>
@@ -121,6 +136,10 @@ def step (s : St) : List String → St × String
     let v := lymanSample (fl x) (fl t) (fn ttab) ttab.size (fn freq) (fun i => fn (g.getD i #[])) freq.size
     let tt := if fl t < fn ttab 0 then "Tbelow" else if fn ttab (ttab.size - 1) < fl t then "Tabove" else "Tin"
     (s, s!"smp {showF v} #{kind}-{tt}-{locTag (clampT (fl t) (fn ttab) ttab.size) ttab ttab.size}")
+  | "fxs" :: ion :: e :: rest =>
+    match ionOf ion with
+    | some i => (s, s!"fxs {showF (fixedCrossSection (rest.map fl) i (fl e))} #fixed")
+    | none => (s, "fxs unknown-ion")
   | ["thr", ion, _] => (s, s!"thr {ion}")
   | "grid" :: _ => (s, "grid")
   | _ => (s, "bad-op")
